@@ -16,6 +16,7 @@ RULE = ('sender on the virtual clock with the rate limiter on: (bitrate, window)
         'emitted completely, unchanged (== extracted Coq reference segmentation) and in order; with the limiter disabled (same budget '
         'parameters) nothing is ever held back. All runs replayed on the extracted model.'
         " (trickle) a long message paced by the peer's STmin under the budget for a good part of a window, then a queue that can burst: what was sent during the trickle still counts until it is a full window old."
+        ' A quarter of the queues are driven with transmit-only passes (process(do_rx=False)); a full pass is made only to read a Flow Control.'
         ' (aborts) in 30 % of the queues the receiver answers some Flow Control requests with Overflow: the message is abandoned, the next queued one follows, and what the abandoned one put on the bus still counts against the window (the completeness clause is not applied to these runs).'
         ' (reconfigure) bitrate and / or window changed with params.set() + load_params() on a live layer: once the old history has left the window, bursts obey the new budget.')
 ASSUME = ['the model computes the budget in exact rationals; only (bitrate, window) pairs whose float operations are exact are generated (checked by the harness)']
@@ -73,8 +74,10 @@ def gen_case(rng, enabled=True):
     def waiting(line):
         st = split_line(line)[1]
         return 'tx=-' in st and 'trans=1' in st
+    # transmit-only driving: an application that reads the bus elsewhere calls process(do_rx=False) - the window slides all the same
+    txonly = enabled and not trickle and rng.random() < 0.25
     for it in range(3000):
-        line = pr.proc(0)
+        line = pr.proc(0, 0, 1) if txonly else pr.proc(0)
         guard = 0
         while waiting(line) and guard < 1000:
             # the sender waits for a flow control: the receiver answers at once (no deadline is ever missed by the peer)
@@ -92,7 +95,7 @@ def gen_case(rng, enabled=True):
             pr.tick_all(rng.choice(steps) if enabled else rng.choice([0, 1, 1000]))
     pr.close()
     case = pr.case
-    case.update({'trickle': trickle, 'aborts': aborts, 'nops': len(case['ops']), 'payloads': payloads, 'W': W, 'B': bitrate * window, 'tx_dl': tx_dl, 'enabled': enabled,
+    case.update({'trickle': trickle, 'aborts': aborts, 'txonly': txonly, 'nops': len(case['ops']), 'payloads': payloads, 'W': W, 'B': bitrate * window, 'tx_dl': tx_dl, 'enabled': enabled,
                  'impl_lines': pr.lines})
     return case
 
